@@ -178,7 +178,7 @@ def _summarise_body(body, helpers=None):
 
 _COL0 = re.compile(r'^[^\s#\)\]\}]')
 
-def summarise_generated(path, jobs=None):
+def summarise_generated(path, jobs=None, extra_helpers=()):
     text = open(path, encoding='utf-8').read()
     lines = text.split('\n')
     # candidate split points: column-0 lines that start a statement
@@ -195,7 +195,8 @@ def summarise_generated(path, jobs=None):
             if i > 0 and lines[i - 1].startswith('@'):
                 continue
             helper_src.append(('\n'.join(lines[i:j]) + '\n', i + 1))
-    helper_src = tuple(helper_src)
+    # helpers of utils.py that are not among the functions the rules are anchored in (wrappers a refactoring added): walked in place as well
+    helper_src = tuple(helper_src) + tuple(extra_helpers)
     if len(starts) > 64 and jobs > 1:
         per = max(1, len(starts) // (jobs * 4))
         cuts = starts[::per]
@@ -324,7 +325,17 @@ class Program:
                 raise AnalysisError("anchor module nmea2000/pgns.py vanished")
             t0 = time.time()
             try:
-                summ, nlines = summarise_generated(p, self.jobs)
+                extra = []
+                try:
+                    from . import normalize
+                    um = self.modules.get('utils')
+                    if um is not None:
+                        for st in um.tree.body:
+                            if isinstance(st, ast.FunctionDef) and not normalize.is_anchor('utils', st.name) and not st.decorator_list:
+                                extra.append((ast.unparse(st) + '\n', 1))
+                except Exception:
+                    extra = []
+                summ, nlines = summarise_generated(p, self.jobs, tuple(extra))
             except SyntaxError as e:
                 raise AnalysisError(f"nmea2000/pgns.py does not parse: {e}")
             self.digests['nmea2000/pgns.py'] = sha256_file(p)
